@@ -12,8 +12,8 @@ RULE = (
     "screens of arity 1..3 with 0..14 rows drawn from small pools of unicode names (incl. '', the control name in any "
     "column, a sample named like the control) and doses (0, -0.0, +-5e-324, negative, 1e300, repeats); half the cases "
     "are encoded with the mappings batchie produced for a strict superset; negative cases corrupt such a mapping "
-    "(drop a needed row, gap, shift, float ids) and must be rejected; plain screens additionally go through up to three in-place plate merges (handles taken once). Non-trivial = both control kinds (by name and by "
-    "dose) occur in one column, or arity != 2, or a strict-superset mapping is supplied, or a negative case. distinct = distinct case JSON."
+    "(drop a needed row, gap, shift, float ids) and must be rejected; 8% of the cases are names x doses designs of 1..300 names and 1..300 doses (condition counts across 2**7, 2**8, 2**15, 2**16; up to 300 samples / 260 plates), encoded plainly or under the full design's mapping; plain screens additionally go through up to three in-place plate merges (handles taken once). Non-trivial = both control kinds (by name and by "
+    "dose) occur in one column, or arity != 2, or a strict-superset mapping is supplied, or a negative case, or a design case. distinct = distinct case JSON."
 )
 ASSUMPTIONS = [
     "names contain no NUL character (numpy's '<U' dtype strips trailing NULs and pandas' string hashing truncates at NUL, so such names are not constructible screen inputs); no surrogates",
@@ -28,8 +28,59 @@ def budgets(tier):
     return {"examples": 6000, "max_s": 700, "shrink_s": 90, "shards": 16}
 
 
+BOUNDARY = [11, 12, 16, 23, 127, 128, 129, 182, 255, 256, 257]
+
+
+@st.composite
+def _grid(draw, big):
+    """a full or partial names x doses design, described by its parameters (rows are built in _grid_sc)"""
+    if big:
+        # both factors large: the condition count crosses 2**15 / 2**16
+        k, m = draw(st.sampled_from([(182, 182), (140, 300), (257, 129), (256, 256), (300, 219)]))
+    else:
+        k = draw(st.one_of(st.integers(1, 40), st.sampled_from(BOUNDARY)))
+        m = draw(st.one_of(st.integers(1, 40), st.sampled_from(BOUNDARY[:6])))
+        if k * m > 6000:
+            m = max(1, 6000 // k)
+    return {
+        "n_names": k,
+        "n_doses": m,
+        "arity": draw(st.sampled_from([1, 2, 2, 3])),
+        "control": draw(st.sampled_from(["", "DMSO", "drug3", "control"])),
+        "zero_dose": draw(st.booleans()),
+        "used": draw(st.sampled_from([1.0, 1.0, 0.7, 0.3])),
+        "perm": draw(st.integers(0, 2**31 - 1)),
+        "n_samples": draw(st.sampled_from([1, 3, 130, 300])),
+        "n_plates": draw(st.sampled_from([1, 4, 129, 260])),
+    }
+
+
+def _grid_sc(g):
+    """rows of the design: every used (name, dose) cell exactly once, cells dealt to the treatment columns in a drawn order"""
+    rng = np.random.default_rng(g["perm"])  # a pure function of the case
+    names = ["drug%d" % i for i in range(g["n_names"])]
+    dose_values = [0.25 * (j + 1) for j in range(g["n_doses"])]
+    if g["zero_dose"]:
+        dose_values[0] = 0.0
+    cells = [(n_, d_) for n_ in names for d_ in dose_values]
+    order = rng.permutation(len(cells))
+    order = order[: max(1, int(len(cells) * g["used"]))]
+    a = g["arity"]
+    while len(order) % a:
+        order = np.append(order, order[0])
+    rows = []
+    for r_i in range(len(order) // a):
+        cs = [cells[int(c)] for c in order[r_i * a : (r_i + 1) * a]]
+        rows.append({"s": "s%d" % (r_i % g["n_samples"]), "p": "p%d" % ((r_i * 7) % g["n_plates"]), "t": [c[0] for c in cs], "d": [c[1] for c in cs], "o": 0.5})
+    return {"arity": a, "control": g["control"], "rows": rows, "observed": []}
+
+
 @st.composite
 def _case(draw):
+    which = draw(st.integers(0, 99))
+    if which < 8:
+        # large designs: many distinct names x doses (the sizes real screens have), plain or under a superset mapping
+        return {"mode": "grid", "grid": draw(_grid(big=which == 0)), "superset": draw(st.booleans())}
     sc = draw(S.screen_case(min_rows=0, max_rows=14))
     mode = draw(st.sampled_from(["plain", "plain", "superset", "superset", "neg"]))
     case = {"screen": sc, "mode": mode, "merges": draw(st.lists(st.tuples(st.integers(0, 9), st.integers(0, 9)), max_size=3))}
@@ -51,6 +102,12 @@ def exhaustive(tier):
     # explicit examples: the empty screen for each arity
     for a in (1, 2, 3):
         yield {"screen": {"arity": a, "control": "", "rows": [], "observed": []}, "mode": "plain"}
+    # fixed large designs: condition counts around 2**7, 2**8, 2**15 (one each in the quick tier, more in the thorough tier)
+    fixed = [(12, 12, 2), (16, 16, 1), (129, 2, 2), (182, 182, 2)]
+    if tier != "quick":
+        fixed += [(140, 300, 2), (256, 256, 3), (257, 129, 1)]
+    for k, m, a in fixed:
+        yield {"mode": "grid", "superset": False, "grid": {"n_names": k, "n_doses": m, "arity": a, "control": "DMSO", "zero_dose": True, "used": 1.0, "perm": k * m, "n_samples": 130, "n_plates": 129}}
 
 
 def _is_control(name, dose, ctl):
@@ -138,7 +195,26 @@ def _check_screen(s, sc, supplied_t=None, supplied_s=None):
     return any(len(k) == 2 for k in both_kinds)
 
 
+def _check_grid(case):
+    g = case["grid"]
+    sc = _grid_sc(g)
+    labels = ["mode=grid", "arity=%d" % sc["arity"], "conditions>=%d" % (2 ** int(np.log2(max(1, g["n_names"] * g["n_doses"]))))]
+    if case.get("superset"):
+        full = _grid_sc(dict(g, used=1.0))
+        sup = S.build_screen(full)
+        _check_screen(sup, full)
+        s = S.build_screen(sc, treatment_mapping=sup.treatment_mapping, sample_mapping=sup.sample_mapping)
+        _check_screen(s, sc, supplied_t=sup.treatment_mapping, supplied_s=sup.sample_mapping)
+        labels.append("grid-under-superset-mapping")
+    else:
+        s = S.build_screen(sc)
+        _check_screen(s, sc)
+    return {"nontrivial": True, "labels": labels, "counts": {"grid_conditions": g["n_names"] * g["n_doses"]}}
+
+
 def check_case(case):
+    if case["mode"] == "grid":
+        return _check_grid(case)
     sc = case["screen"]
     mode = case["mode"]
     labels = ["mode=" + mode, "arity=%d" % sc["arity"]]
